@@ -275,18 +275,52 @@ func ruleEF5() Rule {
 					}
 				}
 			}
-			uses, okUse := 0, 0
-			cf.OwnNodes(func(n ast.Node) bool {
-				id, ok := n.(*ast.Ident)
-				if !ok || info.Uses[id] != wObj {
+			// every use of the writer is the argument of bufio.NewWriter, directly or
+			// through a function of the package that itself uses its parameter so
+			var wrappedOnly func(f *core.Func, obj types.Object, depth int) (uses, okUse int)
+			wrappedOnly = func(f *core.Func, obj types.Object, depth int) (uses, okUse int) {
+				fi := f.Info()
+				f.OwnNodes(func(n ast.Node) bool {
+					id, ok := n.(*ast.Ident)
+					if !ok || fi.Uses[id] != obj {
+						return true
+					}
+					uses++
+					call, ok := c.P.Parent(id).(*ast.CallExpr)
+					if !ok {
+						return true
+					}
+					if calleeName(fi, call) == "bufio.NewWriter" {
+						okUse++
+						return true
+					}
+					if depth >= 3 {
+						return true
+					}
+					fo := core.StaticCallee(fi, call)
+					if fo == nil {
+						return true
+					}
+					g := c.P.FuncOf(fo)
+					if g == nil || g.Pkg != f.Pkg || g.Type.Params == nil {
+						return true
+					}
+					k := 0
+					for _, fld := range g.Type.Params.List {
+						for _, nm := range fld.Names {
+							if k < len(call.Args) && ast.Unparen(call.Args[k]) == ast.Expr(id) {
+								if u, o := wrappedOnly(g, g.Info().Defs[nm], depth+1); u >= 1 && u == o {
+									okUse++
+								}
+							}
+							k++
+						}
+					}
 					return true
-				}
-				uses++
-				if call, ok := c.P.Parent(id).(*ast.CallExpr); ok && calleeName(info, call) == "bufio.NewWriter" {
-					okUse++
-				}
-				return true
-			})
+				})
+				return
+			}
+			uses, okUse := wrappedOnly(cf, wObj, 0)
 			if wObj != nil && uses == okUse && uses >= 1 {
 				rr.OK(cf, cf.Name+"|writer-use", cf.Pos(), "wrapped", "the io.Writer is used only as bufio.NewWriter's argument")
 			} else {
